@@ -70,6 +70,8 @@ def run_job_a(arg):
     for i, ctxs, shape, iters in progs:
         g = got.get(i)
         if g is None:
+            if r.timed_out:
+                continue          # the batch ran out of wall-clock time (machine load): undecided, reported as not exhaustive
             bad.append((ctxs, shape, iters, "no result (%s)" % (excs[:1] or r.out[-200:])))
             continue
         m = re.match(r"\((\d+) \(([\d ]*)\)\)", g)
@@ -85,7 +87,7 @@ def run_job_a(arg):
                 samples, (samples[-1] - samples[-2]) if len(samples) > 1 else "?")))
     import shutil
     shutil.rmtree(d, ignore_errors=True)
-    return jobno, len(progs), bad, (r.rc != 0 or r.timed_out), r.out[-300:]
+    return jobno, len(progs), bad, ("timeout" if r.timed_out else r.rc != 0), r.out[-300:]
 
 
 # ---------------------------------------------------------------- space B
@@ -161,7 +163,9 @@ def run_job_b(arg):
             bad.append((nargs, nlocals, dep, "depth %d cannot fit in the maximum stack but succeeded" % dep))
     import shutil
     shutil.rmtree(d, ignore_errors=True)
-    return jobno, len(depths), bad, (r.rc != 0 or r.timed_out), r.out[-300:], outcomes
+    if r.timed_out:
+        return jobno, len(depths), [], "timeout", r.out[-300:], [o for o in outcomes if o[1] != "bad"]
+    return jobno, len(depths), bad, r.rc != 0, r.out[-300:], outcomes
 
 
 def main(tier):
@@ -192,7 +196,12 @@ def main(tier):
             progs.append((i, (c,), shape, big))
             i += 1
     per = 400
-    jobs = [(j, progs[lo:lo + per]) for j, lo in enumerate(range(0, len(progs), per))]
+    small = [p for p in progs if p[3] <= 50]
+    large = [p for p in progs if p[3] > 50]
+    jobs = [progs_ for progs_ in (small[lo:lo + per] for lo in range(0, len(small), per))]
+    # long loops go to small jobs of their own (one job of 120 x 10^7 iterations does not fit any sensible time limit)
+    jobs = [large[lo:lo + (40 if quick else 3)] for lo in range(0, len(large), 40 if quick else 3)] + jobs
+    jobs = list(enumerate(jobs))
     log("C05 A: %d loop programs in %d jobs" % (len(progs), len(jobs)))
     with Pool(common.NCPU) as pool:
         for jobno, n, bad, crashed, tail in pool.imap_unordered(run_job_a, jobs):
@@ -201,8 +210,11 @@ def main(tier):
                 chk.violation({"op": "tail:" + "/".join(ctxs[-1:]), "contexts": list(ctxs), "shape": shape, "iters": iters, "why": why},
                               "tail call through %s (callee %s, %d iterations): %s" % ("/".join(ctxs) or "plain if", shape, iters, why),
                               HEADER + PRELUDE + program(0, ctxs, shape, iters))
-            if crashed:
-                chk.violation({"op": "crash", "job": jobno}, "loop batch %d crashed or timed out: %s" % (jobno, tail))
+            if crashed == "timeout":
+                chk.exhaustive = False
+                log("C05 A: loop batch %d ran out of wall-clock time; its remaining programs are undecided" % jobno)
+            elif crashed:
+                chk.violation({"op": "crash", "job": jobno}, "loop batch %d crashed: %s" % (jobno, tail))
             if chk.out_of_time():
                 pool.terminate()
                 break
@@ -225,8 +237,11 @@ def main(tier):
             for na, nl, dep, why in bad:
                 chk.violation({"op": "recursion", "nargs": na, "nlocals": nl, "depth": dep, "why": why},
                               "non-tail recursion (%d args, %d locals): %s" % (na, nl, why))
-            if crashed:
-                chk.violation({"op": "crash-b", "job": jobno}, "recursion batch %d crashed or timed out: %s" % (jobno, tail))
+            if crashed == "timeout":
+                chk.exhaustive = False
+                log("C05 B: recursion batch %d ran out of wall-clock time; undecided" % jobno)
+            elif crashed:
+                chk.violation({"op": "crash-b", "job": jobno}, "recursion batch %d crashed: %s" % (jobno, tail))
     chk.sample({"recursion_depths": depths[:6] + ["..."] + depths[-4:], "frame_shapes": shapes})
     common.cleanup_scratch()
     return chk.finish()
